@@ -1605,3 +1605,94 @@ Proof.
   unfold seq_dedup. rewrite E in E2. inversion E2. subst c2. exists c'.
   split; [exact E|]. split; [exact W2|]. split; [exact R2|]. split; [exact K|]. split; [exact D|exact Dec].
 Qed.
+
+(* ================================================================================================ *)
+(* 8. non-vacuity: a concrete store satisfying every hypothesis, and the witness for the RF `use` tag  *)
+(* ================================================================================================ *)
+Lemma has_intro (l : klib) id : ((id =? 0) || amem Z.eqb (ldata l) id) = true -> has l id.
+Proof.
+  intro H. apply orb_true_iff in H. destruct H as [H|H]; [left; apply Z.eqb_eq; exact H|right].
+  unfold amem in H. unfold lib_get. destruct (aget Z.eqb (ldata l) id); [discriminate|discriminate].
+Qed.
+
+Lemma shaped_intro c :
+  Forall (fun p : Z * key => (lib_type (grad_l c) (fst p) = Some tag_t /\ length (snd p) = 5%nat) \/
+                             (lib_type (grad_l c) (fst p) = Some tag_g /\ length (snd p) = 6%nat)) (ldata (grad_l c)) ->
+  GradRowsShaped c.
+Proof. intros F i k H. apply agetZ_In in H. rewrite Forall_forall in F. exact (F _ H). Qed.
+
+Lemma rf_uniform_intro c t : Forall (fun p : Z * key => lib_type (rf_l c) (fst p) = t) (ldata (rf_l c)) -> RfTagsUniform c.
+Proof. intro F. exists t. intros i k H. apply agetZ_In in H. rewrite Forall_forall in F. exact (F _ H). Qed.
+
+Ltac fin_nodup := repeat (constructor; [cbn; intuition discriminate|]); constructor.
+Ltac fin_forall tac := repeat (constructor; [tac|]); constructor.
+Ltac fin_list := match goal with |- Forall ?P ?l => let v := eval vm_compute in l in change (Forall P v) end.
+Ltac fin_store_wf :=
+  unfold StoreWf, lib_wf; repeat split;
+  [ .. ]; first
+  [ match goal with |- NoDup ?l => let v := eval vm_compute in l in change (NoDup v); fin_nodup end
+  | fin_list; fin_forall ltac:(cbv beta; cbn; first [lia|discriminate]) ].
+Ltac fin_refs :=
+  unfold RefsExist; repeat split;
+  [ fin_list; fin_forall ltac:(unfold grad_row_ok; cbn [fst snd];
+      first [left; vm_compute; reflexivity
+            |right; split; [vm_compute; reflexivity
+                           |do 4 eexists; split; [reflexivity|split; apply has_intro; vm_compute; reflexivity]]])
+  | fin_list; fin_forall ltac:(unfold rf_row_ok; cbn [fst snd]; do 5 eexists;
+      split; [reflexivity|repeat split; apply has_intro; vm_compute; reflexivity])
+  | fin_list; fin_forall ltac:(unfold blk_ok; cbn [fst snd]; repeat split; apply has_intro; vm_compute; reflexivity) ].
+
+Definition ex_init : core := core_init (dq 1 100000) (dq 1 100000) (dq 170000000000 1) (dq 1 1000000000).
+(* two trapezoids differing in the 10th digit, two arbitrary gradients whose shapes differ in the
+   11th digit (so the gradients become equal only after the shape ids are renumbered), RF + ADC *)
+Definition ex_ops : list op :=
+  [ AddBlock [MTrap 0 None (dq 100000 1) (dq 1 10000) (dq 1 1000) (dq 1 10000) qc0] [];
+    AddBlock [MTrap 0 None (dq 1000000001 10000) (dq 1 10000) (dq 1 1000) (dq 1 10000) qc0] [];
+    AddBlock [MGrad 1 None None (dq 50000 1) [dq 1 2; dq 1 1; dq 1 2] None qc0 qc0 qc0 (dq 1 200000) (dq 5 200000)] [];
+    AddBlock [MGrad 1 None None (dq 50000 1) [dq 1 2; dq 10000000001 10000000000; dq 1 2] None qc0 qc0 qc0
+                    (dq 1 200000) (dq 5 200000)] [];
+    AddBlock [MRf None None (dq 250 1) [dq 1 1; dq 1 1] [qc0; qc0] None (dq 1 10000) qc0 qc0 117 (dq 1 1000) qc0;
+              MAdc None (dq 16 1) (dq 1 100000) (dq 1 10000) qc0 qc0 qc0] [] ].
+Definition ex_c : core := st_core (fst (seq_run false true (mkState ex_init []) ex_ops)).
+
+Lemma ex_wf : StoreWf ex_c.
+Proof. fin_store_wf. Qed.
+Lemma ex_refs : RefsExist ex_c.
+Proof. fin_refs. Qed.
+Lemma ex_tags : TagsAgree rnd_shape_key rnd_grad_key rnd_rf_key ex_c.
+Proof.
+  apply tags_agree_intro; [exact ex_wf|exact ex_refs| |].
+  - apply shaped_intro. fin_list.
+    fin_forall ltac:(cbn [fst snd]; first [left; split; vm_compute; reflexivity|right; split; vm_compute; reflexivity]).
+  - apply (rf_uniform_intro ex_c (Some 117)). fin_list. fin_forall ltac:(vm_compute; reflexivity).
+Qed.
+
+Theorem dedup_example :
+  StoreWf ex_c /\ RefsExist ex_c /\ TagsAgree rnd_shape_key rnd_grad_key rnd_rf_key ex_c /\
+  option_map blocks (seq_dedup ex_c) =
+    Some [(1, [0; 0; 1; 0; 0; 0; 0]); (2, [0; 0; 1; 0; 0; 0; 0]); (3, [0; 0; 0; 2; 0; 0; 0]);
+          (4, [0; 0; 0; 2; 0; 0; 0]); (5, [0; 1; 0; 0; 0; 1; 0])].
+Proof. split; [exact ex_wf|]. split; [exact ex_refs|]. split; [exact ex_tags|]. vm_compute. reflexivity. Qed.
+
+(* the hypothesis TagsAgree cannot be dropped for the RF library: two RF rows that differ in the
+   9th digit of the amplitude but carry different `use` tags are merged and the second block
+   decodes with the first row's tag ('r' = 114 becomes 'e' = 101) *)
+Definition kf_use_ops : list op :=
+  [ AddBlock [MRf None None (dq 250 1) [dq 1 1; dq 1 1] [qc0; qc0] None (dq 1 10000) qc0 qc0 101 (dq 1 1000) qc0] [];
+    AddBlock [MRf None None (dq 2500000025 10000000) [dq 1 1; dq 1 1] [qc0; qc0] None (dq 1 10000) qc0 qc0 114
+                  (dq 1 1000) qc0] [] ].
+Definition kf_use_c : core := st_core (fst (seq_run false true (mkState ex_init []) kf_use_ops)).
+Definition rf_use_of (b : option dblock) : option (option Z) :=
+  option_map (fun b => option_map (fun x : key * Z * list key => snd (fst x)) (d_rf b)) b.
+
+Theorem rf_use_merge_refuted :
+  exists c c' i, StoreWf c /\ RefsExist c /\ seq_dedup c = Some c' /\
+    rf_use_of (decode c i) = Some (Some 114) /\ rf_use_of (decode c' i) = Some (Some 101).
+Proof.
+  exists kf_use_c. destruct (seq_dedup kf_use_c) as [c'|] eqn:E; [|vm_compute in E; discriminate E].
+  exists c', 2. split; [fin_store_wf|]. split; [fin_refs|]. split; [reflexivity|].
+  split; [vm_compute; reflexivity|].
+  assert (X : option_map (fun c' => rf_use_of (decode c' 2)) (seq_dedup kf_use_c) = Some (Some (Some 101)))
+    by (vm_compute; reflexivity).
+  rewrite E in X. cbn [option_map] in X. inversion X. reflexivity.
+Qed.
